@@ -534,6 +534,35 @@ pub fn gen_random(rng: &mut Rng, max_depth: usize) -> Case {
         }
         ops.extend(inner);
     }
+    // now and then a wide layer: several hundred distinct keys written in one cache (over a base that holds some
+    // records of its own), with a removal of a base record repeated after every write — whatever the number of
+    // distinct entries in the layer (255, 256, 257, 512, ...), the removed records stay removed
+    let mut wide_layer = false;
+    if rng.chance(1, 300) {
+        wide_layer = true;
+        let n = rng.range(260, 560) as usize;
+        let wide: Vec<Vec<u8>> = (0..n).map(|i| vec![0x10 + (i >> 8) as u8, i as u8]).collect();
+        let victims: Vec<Vec<u8>> = (0..3).map(|i| vec![0x0F, i as u8]).collect();
+        for v in &victims {
+            counter += 1;
+            base.push((hex(v), hex(format!("b{}", counter).as_bytes())));
+        }
+        let mut w = vec![];
+        for (i, k) in wide.iter().enumerate() {
+            counter += 1;
+            w.push(Op::Set(hex(k), hex(format!("w{}", counter).as_bytes())));
+            w.push(Op::Remove(hex(&victims[i % 3])));
+            if i % 4 == 0 {
+                w.push(Op::Get(hex(&victims[(i + 1) % 3])));
+            }
+            if i % 64 == 63 {
+                w.push(Op::Scan { start: None, end: None, desc: false, take: 2 });
+                w.push(Op::Scan { start: Some(hex(&wide[i - 40])), end: None, desc: i % 128 == 63, take: 3 });
+            }
+        }
+        keys.extend(wide.iter().step_by(37).cloned());
+        ops = vec![Op::Child { helper: false, ops: w, commit: rng.chance(2, 3) }];
+    }
     // universe: working set, neighbours (prefix, extension) and a few random keys
     let mut uni: Vec<Vec<u8>> = keys.clone();
     for k in &keys {
@@ -558,7 +587,13 @@ pub fn gen_random(rng: &mut Rng, max_depth: usize) -> Case {
             }
         }
     }
-    collect(&ops, &mut uni);
+    if wide_layer {
+        // (probing with every one of several hundred keys as a bound would take minutes: the working set, which got a
+        // sample of them, and the removed base records do)
+        uni.extend((0..3).map(|i| vec![0x0F, i as u8]));
+    } else {
+        collect(&ops, &mut uni);
+    }
     uni.sort();
     uni.dedup();
     Case {
@@ -566,7 +601,9 @@ pub fn gen_random(rng: &mut Rng, max_depth: usize) -> Case {
         root: Op::Child { helper: rng.chance(1, 4), ops, commit: rng.chance(2, 3) },
         universe: uni.iter().map(|k| hex(k)).collect(),
         sample_pairs: 12,
-        sparse: rng.chance(1, 2),
+        // (a wide layer is judged by its own reads: a sweep over hundreds of keys after each of a thousand operations
+        // would take minutes)
+        sparse: wide_layer || rng.chance(1, 2),
         check_seed: rng.next_u64(),
     }
 }
